@@ -14,7 +14,9 @@ class C15(Prop):
     level_note = ('Trusted: Lean kernel + standard axioms; asyncio.sleep/call_later under the deterministic loop; arrivals exactly at a check instant are excluded (asyncio tie-break); '
                   'behaviour after the first timeout is not compared.')
     design_ref = '§5 C15'
-    rule = ('(period P, lifetime L) from a grid incl. sub-second values x acknowledgement pattern (always, never, stops at t, delayed/irregular gaps below and above L) over a horizon of '
+    rule = ('(period P, lifetime L) from a grid incl. sub-second values x acknowledgement pattern (always, never, stops at t, delayed/irregular gaps below and above L) over a horizon of ' +
+            '~8 lifetimes; in 40% of the cases the application handler is a delegate behind the Rx (v3) or ReactiveX (v4) handler adapter; '
+            'each over '
             '~8 lifetimes, in 30% of the cases with a multi-fragment upload on a slow link keeping the send queue busy across several periods; plus KEEPALIVE frames with/without respond flag and data sent to a client and to a server, in half of the cases while the endpoint is in the middle of a fragmented send on a slow link (one fragment released per KEEPALIVE); non-trivial = at least 3 keepalives sent and at least one arrival '
             'or a timeout; distinct = distinct (P, L, arrivals)')
     assumptions = ['integer-millisecond periods (timedelta of whole milliseconds)']
@@ -47,7 +49,9 @@ class C15(Prop):
                 if t % L == 0:
                     t += 1
                 arr.append(t)
-            c = {'kind': 'timing', 'P': P, 'L': L, 'h': horizon, 'arr': arr, 'pat': pat}
+            c = {'kind': 'timing', 'P': P, 'L': L, 'h': horizon, 'arr': arr, 'pat': pat,
+                 # the application's handler may be a delegate behind the Rx (v3) / ReactiveX (v4) handler adapter: its callback must still run
+                 'adapter': rng.choice([None, None, None, 'rx3', 'rx4'])}
             if rng.random() < 0.3:
                 # outbound traffic that keeps the send queue non-empty across several keep-alive periods: a multi-fragment frame on a link that
                 # takes `gap` ms per frame
@@ -94,6 +98,7 @@ class C15(Prop):
         import asyncio
         busy = case.get('busy')
         R = clientrun.ClientRun(loop, n_transports=2 if case.get('again') else 1, ka_ms=case['P'], life_ms=case['L'], **({'fragment_size_bytes': 64} if busy else {}))
+        R.adapter = case.get('adapter')
         c = R.build()
         await c.connect()
         await loop.settle()
